@@ -201,7 +201,8 @@ def match_known(prop, sig, known):
     """sig: dict describing a failing scenario (cfg of the scenario + why).  A finding matches when every
     key of its 'sig' equals the scenario's value (so findings are specific, never per property)."""
     for k in known:
-        if k.get("status") != "open" or prop not in k.get("properties", [k.get("property")]):
+        props = k.get("properties", [k.get("property")])
+        if k.get("status") != "open" or (prop not in props and "*" not in props):
             continue
         if all(_sig_ok(sig, a, b) for a, b in k["sig"].items()):
             return k
